@@ -155,6 +155,43 @@ class RecDirective:
         return await next_resolver(parent, args, ctx, info)
 
 
+class PassDirective:
+    """@vtpass on SCHEMA: both schema-level hooks forward the request unchanged, with the arguments passed positionally (the
+    documented shape) or by keyword.  Counts its invocations in the request context's world."""
+
+    def __init__(self, style):
+        self.kw = style == "keyword"
+
+    async def on_schema_execution(self, directive_args, next_directive, schema, document, parsing_errors, operation_name,
+                                  context, variables, initial_value):
+        _count_pass(context, "on_schema_execution")
+        if self.kw:
+            return await next_directive(schema, document, parsing_errors, operation_name=operation_name, context=context,
+                                        variables=variables, initial_value=initial_value)
+        return await next_directive(schema, document, parsing_errors, operation_name, context, variables, initial_value)
+
+    async def on_schema_subscription(self, directive_args, next_directive, schema, document, parsing_errors, operation_name,
+                                     context, variables, initial_value):
+        _count_pass(context, "on_schema_subscription")
+        if self.kw:
+            gen = next_directive(schema, document, parsing_errors, operation_name=operation_name, context=context,
+                                 variables=variables, initial_value=initial_value)
+        else:
+            gen = next_directive(schema, document, parsing_errors, operation_name, context, variables, initial_value)
+        async for r in gen:
+            yield r
+
+
+PASS_CALLS = {}
+
+
+def _count_pass(context, hook):
+    PASS_CALLS[hook] = PASS_CALLS.get(hook, 0) + 1
+    w = context.get("world") if isinstance(context, dict) else None
+    if w is not None and hasattr(w, "schema_hook_calls"):
+        w.schema_hook_calls.append(hook)
+
+
 class Bundle:
     """One cooked engine for one schema model."""
 
@@ -174,6 +211,8 @@ class Bundle:
             Directive("vtrec", schema_name=sn)(RecDirective())
         if "vtctx" in s.directives:
             Directive("vtctx", schema_name=sn)(CtxDirective())
+        if "vtpass" in s.directives:
+            Directive("vtpass", schema_name=sn)(PassDirective(s.directives["vtpass"].impl.split(":")[1]))
         for d in s.directives.values():
             if d.name not in ("vtgate", "vtrec", "vtctx") and getattr(d, "impl", "noop") == "noop":
                 Directive(d.name, schema_name=sn)(NoOpDirective())
